@@ -15,7 +15,7 @@ import (
 	"verif/internal/vk"
 )
 
-const c09TraceSet = "mkdirat,mkdir,unlinkat,unlink,rmdir,renameat,renameat2,rename,symlinkat,symlink,fchmodat,fchmod,chmod,fchownat,fchown,chown,lchown,openat,open,write,read,linkat,link,newfstatat,fstat,getdents64,readlinkat,getppid"
+const c09TraceSet = "copy_file_range,sendfile,splice,pwrite64,pread64,mkdirat,mkdir,unlinkat,unlink,rmdir,renameat,renameat2,rename,symlinkat,symlink,fchmodat,fchmod,chmod,fchownat,fchown,chown,lchown,openat,open,write,read,linkat,link,newfstatat,fstat,getdents64,readlinkat,getppid"
 
 // c09Run is the outcome of one child run.
 type c09Run struct {
@@ -405,6 +405,23 @@ func c09() {
 					judge(run, fmt.Sprintf("%s:k=%d", c.mode, c.k), nil, "", false)
 				})
 			}
+		})
+	}
+	// Cancellation while a > 32 MiB staged file is copied across devices (the copy is
+	// preemptable every 1024 writes of 32 KiB): a create and a swap.
+	for i := 0; i < r.Pick(2, 12); i++ {
+		s := c09Spec{Seed: r.Seed, Plan: 200000 + i/2, Mode: "cancel-copy", K: i}
+		submit(func() {
+			fmt.Printf("C09 cancellation during a cross-device copy: plan %d variant %d\n", s.Plan, s.K%2)
+			run := c09RunChild(r, s, false, nil)
+			if run.Verdict != nil && run.Verdict.Stage == "done" {
+				if run.Verdict.Preempted {
+					r.Count("cross_device_copies_preempted", 1)
+				} else {
+					r.Inconclusive("cross-device-copy-not-preempted")
+				}
+			}
+			judge(run, fmt.Sprintf("cancel-copy:variant=%d", s.K%2), nil, "", false)
 		})
 	}
 	// Randomly timed cancellation during a large removal.
